@@ -2,7 +2,7 @@
    Result code per case: 0 = agrees with the model (both variants where a variant exists), 1 = agrees only with
    today's variant (_current), 2 = agrees only with the repaired variant, 3 = disagrees with the model. *)
 From Coq Require Import List Arith NArith ZArith Bool.
-From OG Require Import C05.Model C05.Trunc C05.ReadPath C05.RestartRace.
+From OG Require Import C05.Model C05.Trunc C05.ReadPath C05.RestartRace C05.Coord.
 Import ListNotations.
 
 Fixpoint list_eqb {A} (eqb : A -> A -> bool) (a b : list A) : bool :=
@@ -57,6 +57,7 @@ Inductive case :=
 | CGroupT (stale lost : bool)
 | CGroupL (lost : bool)
 | CGroupR (lost : bool)
+| CBatch (scripts : list (list wres)) (acked : bool) (calls : list nat)
 | CReadSel (health : bool) (master : nat) (online : list bool) (shard_pts : list nat) (sel : list nat)
 | CSend (fsz first last snp : N) (probes : list (N * bool)) (slots : list (N * option nat * Z * bool)).
 
@@ -286,6 +287,19 @@ Definition classify (c : case) : nat :=
         | None => false
         end in
       variant (Bool.eqb (m false) lost) (Bool.eqb (m true) lost)
+  | CBatch scripts acked calls =>
+      (* per shard as in CCoord: a script that ends in WRetry models "no master for longer than the timeout" (the number
+         of attempts depends on the clock: at least the scripted ones) *)
+      let one := fun (sc : list wres) (k : nat) =>
+        match last sc WFail with
+        | WRetry => (fst (coord_retry 3 (removelast sc) WRetry 0), Nat.leb (length sc) k)
+        | l => let r := coord_retry 1000 (removelast sc) l 0 in (fst r, Nat.eqb (snd r) k)
+        end in
+      let rs := map (fun p => one (fst p) (snd p)) (combine scripts calls) in
+      if Nat.eqb (length scripts) (length calls) && Bool.eqb (forallb fst rs) acked && forallb snd rs
+         && Bool.eqb (fst (batch_write 1000 (filter (fun sc => match last sc WFail with WRetry => false | _ => true end) scripts))
+                      && forallb (fun sc => match last sc WFail with WRetry => false | _ => true end) scripts) acked
+      then 0 else 3
   | CGroupR lost =>
       (* scenario replayrace: the rejoined member's replay is slower than the entries shipped by the leader *)
       let x := mkNode false false [EData 0 1%N [(1%N, 10%Z)]; EData 0 2%N [(1%N, 11%Z)]] 0 1 0 [(1%N, 10%Z)] [] [] 0 0 [] [] false [] 0%N in
